@@ -19,12 +19,17 @@
 #include "expression_integer.h"
 
 #include <string>
+#include <cstdint>
 
 namespace bloc
 {
 
 std::string IntegerExpression::unparse(Context& ctx) const
 {
+  /* the decimal text of the lowest integer reads back as a negation: it
+   * would gain a sign at every round trip */
+  if (*v.integer() == INT64_MIN)
+    return "0x8000000000000000";
   return Value::readableInteger(*v.integer());
 }
 
